@@ -28,7 +28,10 @@ struct Cloud
 
 struct Local {bool tie; std::vector<int> nb; VecL mean; MatL C; VecL ev; MatL V; LD gap, c, lmax;};
 
-static Local local_oracle(const std::vector<VecL> & pts, int i, int k)
+// tie_rel: relative gap between the k-th and (k+1)-th squared distances below which the neighbour
+// set is not decided by the points (the tree compares distances computed in the point scalar type,
+// each good to a few eps)
+static Local local_oracle(const std::vector<VecL> & pts, int i, int k, LD tie_rel)
 {
   const int d = (int)pts[0].size(), N = (int)pts.size();
   std::vector<std::pair<LD, int>> ds(N);
@@ -38,7 +41,7 @@ static Local local_oracle(const std::vector<VecL> & pts, int i, int k)
   L.tie = false;
   if (k < N) {
     LD a = ds[k - 1].first, b = ds[k].first;
-    L.tie = (b - a) <= 1e-6L * b;
+    L.tie = (b - a) <= tie_rel * b;
   }
   L.mean = VecL::Zero(d);
   for (int j = 0; j < k; ++j) {L.nb.push_back(ds[j].second); L.mean += pts[ds[j].second];}
@@ -87,6 +90,9 @@ static void run_cloud(vh::Ctx & c, vh::Rng & r, const Cloud & cl)
   using S = typename P::Scalar;
   const int d = Tr<P>::DIM;
   const LD eps = std::numeric_limits<S>::epsilon();
+  // float: 1e-6 (about 8 eps); double: 1e-13 (450 eps) - near ties far above that are decided by the
+  // points and an exact k-nearest-neighbour search must respect them
+  const LD tie_rel = sizeof(S) == 4 ? 1e-6L : 1e-13L;
   const int N = (int)cl.pts.size();
   PointSet<P> pts(N);
   std::vector<VecL> rp(N);                 // the rounded points the library sees
@@ -153,7 +159,7 @@ static void run_cloud(vh::Ctx & c, vh::Rng & r, const Cloud & cl)
   const int nsample = std::min(N, 40);
   for (int sidx = 0; sidx < nsample; ++sidx) {
     int i = N <= 40 ? sidx : (int)r.range(0, N - 1);
-    Local L = local_oracle(rp, i, cl.k);
+    Local L = local_oracle(rp, i, cl.k, tie_rel);
     if (L.tie) {c.skip("oracle:knn_tie"); continue;}
     if (!(L.gap > 1e-6L)) {c.skip("oracle:eigengap_below_1e-6_outside_quantifier"); continue;}
     LD bound = 16 * eps * L.c / L.gap;
@@ -188,7 +194,7 @@ static void run_cloud(vh::Ctx & c, vh::Rng & r, const Cloud & cl)
       }
     }
     // rotation equivariance: same neighbourhood in the rotated copy, normal rotated by R
-    Local LR = local_oracle(rpR, i, cl.k);
+    Local LR = local_oracle(rpR, i, cl.k, tie_rel);
     if (LR.tie || LR.nb != L.nb || !(LR.gap > 1e-6L)) {c.skip("rotation:neighbourhood_changed_by_rounding"); continue;}
     LD bR = 16 * eps * (L.c / L.gap + LR.c / LR.gap) + 8 * eps * pmax / sqrtl(L.ev(1)) * (L.lmax / (L.ev(1) - L.ev(0)));
     if (bR >= 1e-2L) {c.skip("rotation:vacuous_tolerance"); continue;}
@@ -214,8 +220,8 @@ static void gen_cloud(vh::Rng & r, Cloud & cl)
   cl.k = (int)r.range(3, 30);
   int nk = r.range(0, 9);
   int N = nk <= 1 ? cl.k + 1 + (int)r.range(0, 5) : nk <= 7 ? (int)r.range(cl.k + 1, 300) : (int)r.range(300, 2000);
-  static const char * kinds[] = {"plane", "plane", "room", "sphere_around_sensor", "noisy_plane", "noisy_room", "blob"};
-  cl.kind = kinds[r.range(0, 6)];
+  static const char * kinds[] = {"plane", "plane", "room", "sphere_around_sensor", "noisy_plane", "noisy_room", "blob", "regular_room"};
+  cl.kind = kinds[r.range(0, 7)];
   cl.planar = cl.kind == "plane";
   cl.noise = 0;
   cl.pts.clear();
@@ -241,6 +247,33 @@ static void gen_cloud(vh::Rng & r, Cloud & cl)
       p(axis) = sg * cl.dist + (cl.noise > 0 ? r.normal() * cl.noise : 0);
       cl.pts.push_back(Rw * (p + shift));
     }
+  } else if (cl.kind == "regular_room") {
+    // walls sampled on a regular axis-aligned lattice (what a scanner with constant angular or
+    // linear steps produces) with a jitter of 1e-12..1e-8 of the spacing: the neighbour distances
+    // come in NEAR ties, far above rounding level, which an exact neighbour search must resolve
+    const int m = (int)r.range(4, 12);
+    const LD h = cl.dist / m, jit = h * r.logu(1e-12, 1e-8);
+    std::vector<VecL> all;
+    for (int wall = 0; wall < 2 * d; ++wall) {
+      const int axis = wall / 2; const LD sg = wall % 2 ? 1 : -1;
+      if (d == 2) {
+        for (int a = -m; a <= m; ++a) {VecL p(2); p(axis) = sg * cl.dist; p(1 - axis) = a * h; all.push_back(p);}
+      } else {
+        for (int a = -m; a <= m; ++a) {
+          for (int b = -m; b <= m; ++b) {VecL p(3); p(axis) = sg * cl.dist; p((axis + 1) % 3) = a * h; p((axis + 2) % 3) = b * h; all.push_back(p);}
+        }
+      }
+    }
+    for (int i = (int)all.size(); i > 1; --i) {std::swap(all[i - 1], all[r.range(0, i - 1)]);}
+    N = std::max(cl.k + 1, std::min<int>(N, (int)all.size()));
+    if ((int)all.size() < N) {N = (int)all.size();}
+    VecL shift(d); for (int j = 0; j < d; ++j) {shift(j) = (LD)r.range(-3, 3) * h;}
+    for (int i = 0; i < N; ++i) {
+      VecL p = all[i] + shift;
+      for (int j = 0; j < d; ++j) {p(j) += r.normal() * jit;}
+      cl.pts.push_back(p);
+    }
+    if ((int)cl.pts.size() <= cl.k) {cl.k = std::max(3, (int)cl.pts.size() - 1);}
   } else if (cl.kind == "sphere_around_sensor") {
     LD rad = r.coin(0.7) ? r.uni(0.3, 0.99) : r.logu(1.0, 30.0);
     cl.dist = rad;
